@@ -36,11 +36,13 @@ ASSUMPTIONS = ["file and directory names are ASCII without blanks, '|' or ','; n
                "at most five languages (processTopFile prints no table at all for more than five)"]
 
 LANGS = {  # language -> (extension, line comment, code line pool)
-    "Go": ("go", "//", ["package a", "func F() {", "}", "var x = 1", "x := y + 1", "return x"]),
-    "Java": ("java", "//", ["class A {", "int x = 1;", "}", "return x;", "void f() {"]),
-    "Python": ("py", "#", ["x = 1", "def f(a):", "    return a", "pass", "y = x + 2"]),
-    "JavaScript": ("js", "//", ["var a = 1;", "function f() {", "}", "let b = a + 2;"]),
-    "Shell": ("sh", "#", ["echo hi", "x=1", "ls -l", "cd ..", "exit 0"]),
+    # branching lines give files of the same length different complexity figures (scc counts them; the top-file
+    # order must not depend on them)
+    "Go": ("go", "//", ["package a", "func F() {", "}", "var x = 1", "x := y + 1", "return x", "if x > 1 {", "for i := 0; i < 3; i++ {"]),
+    "Java": ("java", "//", ["class A {", "int x = 1;", "}", "return x;", "void f() {", "if (x > 1) {", "while (x < 9) {", "if (a && b || c) {"]),
+    "Python": ("py", "#", ["x = 1", "def f(a):", "    return a", "pass", "y = x + 2", "if a and b:", "for i in a:"]),
+    "JavaScript": ("js", "//", ["var a = 1;", "function f() {", "}", "let b = a + 2;", "if (a > 1) {", "for (;;) {"]),
+    "Shell": ("sh", "#", ["echo hi", "x=1", "ls -l", "cd ..", "exit 0", "if [ -f x ]; then", "fi"]),
 }
 LANG_NAMES = list(LANGS)
 PLAIN_DIRS = ["a", "b", "src", "lib", "ab", "a.b", "docs", "pkg", "x_y", "t", "tt", "main", "v1.2", "proj", "java", "resources"]
